@@ -1,4 +1,5 @@
 import EgglogVerif.Lemmas.EGraphFix
+import EgglogVerif.Lemmas.EGraphTerm
 /-
 C04 — The database is canonical and consistent after every command (model level).
 
@@ -151,5 +152,16 @@ theorem C04_idempotent {g : EG} (c : Canonical g) (h : g.WF) (fuel : Nat) :
     unfold EG.sameAs
     simp
   rw [if_pos this]
+
+/-- **The rebuild loop terminates and leaves a canonical database** — no hypothesis on the loop
+any more: for every state with a well-formed union-find in which every stored output id is an id
+of the union-find (true of every id the engine mints: `OutsInRange.lookupOrCreate`, `.union`,
+`.insertRow`), `size + 2` passes suffice: each pass either merges two classes (the number of
+representatives drops) or changes no representative, and then its result is canonical and the
+next pass is the identity. -/
+theorem C04_terminates {g : EG} (h : g.WF) (hr : OutsInRange g g.parents.size) :
+    (rebuild (g.parents.size + 2) g).2 = true ∧ Canonical (rebuild (g.parents.size + 2) g).1 := by
+  have ht := rebuild_total h hr
+  exact ⟨ht, (rebuild_canonical _ g h ht).1⟩
 
 end EgglogVerif.EGraph
